@@ -123,7 +123,7 @@ class Renderer:
             lit = self.literal(cls, rnd)
             if ok:
                 tag = str(v) if v >= 0 else "m" + str(-v)
-                modes = ["L", "L", "L", "L", "SB", "SA"]
+                modes = ["L", "L", "L", "L", "SB", "SA", "HS"]
                 if -8 <= v <= 8:
                     modes += ["AB", "AA", "EA"]
                 if base0 and v in LABEL_OFFS:
@@ -137,6 +137,13 @@ class Renderer:
         self.modes[mode] += 1
         if mode == "L":
             return lit, {}
+        if mode == "HS":
+            # a HELD SUM: hs = hp + hq, with hp = hx + 1 and hq = hy + 1 written above their own dependencies; hx = -2 stands above
+            # the use and hy = <the value> below it, so the sum is first looked at when one half is computable and the other is not
+            n = "hs" + tag
+            return n, {n + "a": ("before", f"{n}p = {n}x + 1", None), n + "b": ("before", f"{n}q = {n}y + 1", None),
+                       n + "c": ("before", f"{n} = {n}p + {n}q", None), n + "d": ("before", f"{n}x = -2", None),
+                       n + "e": ("after", f"{n}y = {lit}", None)}
         if mode == "SB":
             return "vb" + tag, {"vb" + tag: ("before", f"vb{tag} = {lit}", None)}
         if mode == "SA":
@@ -273,7 +280,10 @@ def render_item(rec, seed, base0):
         return (".dword", text, {}, dword_bytes(v) if st == "ok" else None)
     toks, st, v, serial = rec[:4]
     rnd = random.Random(seed * 1000003 + serial)
-    text, needs = RENDERER.expr(toks, rnd, base0, rec[4] if len(rec) > 4 else None)
+    force = rec[4] if len(rec) > 4 else None
+    text, needs = RENDERER.expr(toks, rnd, base0, "pending" if force else None)
+    if force == "pending-unused":
+        return (f"uq{serial} =", text, needs, None)      # a definition nobody uses: its error is due all the same
     if st != "ok":
         return (".dword", text, needs, None)
     if -32768 <= v <= 65535 and rnd.random() < 0.25:
@@ -381,7 +391,8 @@ class Replayer:
                     # an error must be reported also when its operands are still unknown at the first evaluation (and whatever the
                     # rest of the expression does with the erroneous value, e.g. multiply it by zero)
                     self.single.append((r + ("pending",), None))
-                    self.n["error_cases_with_pending_operands"] += 1
+                    self.single.append((r + ("pending-unused",), None))
+                    self.n["error_cases_with_pending_operands"] += 2
         if st == "err" and self.n["sampled_err"] < 2 and ntok >= 3:
             self.n["sampled_err"] += 1
             self.sample(r, "error")
